@@ -268,9 +268,9 @@ PROPS = {
         'kani_quick': [('proto_varint_roundtrip', 300, True), ('proto_sint64_roundtrip', 300, True), ('proto_sint32_roundtrip', 300, True),
                        ('proto_uint32_bool_roundtrip', 300, True), ('proto_tag_roundtrip', 300, True), ('proto_sfixed32_roundtrip', 300, True)],
         'search_groups': ['proto'],
-        'bounded_search': [('proto', 'BOUNDED stand-in for ProtobufWriter / ProtobufReader (Writer/Reader impls, tag_counter discipline; Vec/String state machine outside both verifiers): 8 generated types compiled by the real proc macro '
+        'bounded_search': [('proto', 'BOUNDED stand-in for ProtobufWriter / ProtobufReader (Writer/Reader impls, tag_counter discipline; Vec/String state machine outside both verifiers): 9 generated types compiled by the real proc macro '
                                      '(every integer width/sign class around the i32/u32/i64 thresholds, OPTIONAL members, embedded SEQUENCE incl. empty ones followed by further fields, SEQUENCE OF messages / numbers, CHOICE in CHOICE, '
-                                     'ENUMERATED, OCTET STRING), 10500 boundary-heavy values: both writer back ends produce identical bytes and the bytes read back equal')],
+                                     'ENUMERATED, OCTET STRING, BIT STRING incl. empty), 12000 boundary-heavy values: both writer back ends produce identical bytes and the bytes read back equal')],
         'assumptions': ['only the protobuf primitives (ProtoRead/ProtoWrite) are decided; the tag_counter discipline of ProtobufReader/Writer over generated types is not under contract'],
         'trusted_base': KANI_TRUSTED,
         'not_under_contract': ['ProtobufWriter / ProtobufReader (Writer/Reader impls, State.tag_counter)', 'SliceOrVec back ends', 'BitVec trailing-length representation'],
